@@ -42,6 +42,7 @@ def run_scenario(outcomes, lifetimes, close_iter, cfg, horizon=30.0, tail=40.0, 
     if had_dt:
         mc.datetime = FakeDT
     ev, n, closed = [], [0], [False]
+    err = [""]
 
     class T(asyncio.BaseTransport):
         def __init__(self, i):
@@ -102,7 +103,10 @@ def run_scenario(outcomes, lifetimes, close_iter, cfg, horizon=30.0, tail=40.0, 
         if not closed[0]:
             closed[0] = True
             ev.append(_ev("close", loop.time()))
-            cm.close()
+            try:
+                cm.close()
+            except Exception as ex:  # noqa: BLE001
+                err[0] = "close:" + type(ex).__name__
 
     orig = loop._run_once
 
@@ -112,7 +116,6 @@ def run_scenario(outcomes, lifetimes, close_iter, cfg, horizon=30.0, tail=40.0, 
         orig()
 
     loop._run_once = hooked
-    err = [""]
 
     async def main():
         lt = asyncio.ensure_future(cm.connect_loop())
